@@ -1039,7 +1039,8 @@ var factSignature = &fact{id: "signature", what: "an RSA-SHA256 signature by the
 					}
 					keyFromCaller := false
 					for pv := range ps {
-						if fa, isFA := pv.(*ssa.FieldAddr); isFA && ir.FieldID(fa) == "crypto/x509.Certificate.PublicKey" && isCallerCert(fa.Parent(), fa.X) && (fa.Parent() == at || fa.Parent().Parent() == at) {
+						if fa, isFA := pv.(*ssa.FieldAddr); isFA && ir.FieldID(fa) == "crypto/x509.Certificate.PublicKey" && isCallerCert(fa.Parent(), fa.X) &&
+							(fa.Parent() == fn || fa.Parent().Parent() == fn || fa.Parent() == at || fa.Parent().Parent() == at) {
 							keyFromCaller = true
 						}
 					}
